@@ -28,7 +28,8 @@ from common import Check, main_wrapper
 # gen2:<p> = the OUTPUT of profile <p> is compiled again (same or other options, sometimes a third time; harness/regen.py):
 # interface and CPU operators of the FIRST source must still be preserved in the final file, and the Ethos-U operators of the first
 # output must be passed through verbatim (Lean `ethosuverbatim`)
-PROFILES = ["c11", "c11", "cpu", "c11", "mixed", "gen2:c11", "c11", "weird", "c11", "gen2:mixed", "c11", "gen2:cpu"]
+PROFILES = ["c11", "c11", "cpu", "c11", "mixed", "c11", "weird", "c11"]
+GEN2_PROFILES = ["gen2:c11", "gen2:mixed", "gen2:c11", "gen2:cpu"]      # run in addition (n // 4), the population above is unchanged
 
 
 # ------------------------------------------------------------------------------------------------
@@ -370,6 +371,7 @@ def main():
     # ---- pipeline artefacts ----------------------------------------------------------------------
     n = 7000 if ck.thorough else 480
     jobs = [(ck.seed, i, PROFILES[i % len(PROFILES)]) for i in range(n)]
+    jobs += [(ck.seed, i, GEN2_PROFILES[i % len(GEN2_PROFILES)]) for i in range(n // 4)]
     outs = run_jobs(jobs)
     lines, owners = [], []
     rr_lines, rr_owners = [], []
